@@ -5,24 +5,21 @@ from .. import common as C
 from ..translate import incompat as TR
 
 ID = "C17"
-# "-k": keep building Tie/C17.vo when the re-proved theorem fails on a changed kernel, so that the
-# Spec oracle can still look for a concrete failing input (the flag goes to make, see common.coq_make)
-COQ_TARGETS = ["-k", "Tie/C17.vo", "Properties/C17.vo"]
+COQ_TARGETS = ["Tie/C17.vo", "Properties/C17.vo"]   # common.coq_make passes -k to make
 PROPERTY_FILE = "Properties/C17.v"
 TIE = "Tie.C17"
 DRIVER = "c17_driver.py"
 SHARD = 400
-# runner.py evaluates model_out with one serial coqc per disagreeing case (uncapped): a mutant that
-# changes the message of thousands of grid cases would take hours.  Tie.C17.model_out exists for
-# manual use (`Eval vm_compute in (model_out c)`); the replay file carries case + observation.
-HAS_MODEL_OUT = False
 THEOREMS = [
     "C17_incompat_none_iff_all_shapes_bind", "C17_admits_iff_binds", "C17_self_stripped_binds",
-    "C17_bounded_shapes_suffice", "C17_verify_success_iff", "C17_errors_reported_exactly",
+    "C17_selfless_method_accepted_refuted", "C17_bounded_shapes_suffice", "C17_verify_success_iff", "C17_errors_reported_exactly",
     "C17_outcome_by_failure_count",
 ]
 RULE = ("grid: every pair of (required, defaulted, *args, **kwargs) signatures with required, defaulted <= 3 "
-        "(4096 pairs) x {function in the instance dict, bound method, verifyClass}; aggregation stream: "
+        "(4096 pairs) x {function in the instance dict, bound method, verifyClass}, plus every interface signature "
+        "against methods / classmethods that take their instance through *args (def m(*va[, **kw])); "
+        "aggregation stream (each case preceded by a random set of single-name look-ups on the interface, its "
+        "base and a derived interface: [], in, get, queryDescriptionFor, existing and unknown names): "
         "interfaces with 1-6 names over a base and a derived interface (overrides included), each "
         "implementation missing / compatible / incompatible / non-callable / non-introspectable, "
         "declared directly, through a derived interface or not at all, tentative on/off, verifyObject on "
@@ -37,7 +34,8 @@ TRUSTED_BASE = [
 ]
 ASSUMPTIONS = [
     "scope of the property: positional, defaulted, *args, **kwargs parameters; keyword-only / positional-only "
-    "parameters, methods without a self parameter and staticmethods under verifyClass are run and recorded "
+    "parameters, methods with neither a first parameter nor *args (uncallable through an instance, yet accepted: "
+    "C17_selfless_method_accepted_refuted) and staticmethods under verifyClass are run and recorded "
     "(coverage.distribution 'unjudged:*') but not judged",
     "a call shape is (number of positional arguments, one keyword that names no parameter); passing declared "
     "parameters by keyword (which depends on parameter names) is outside the model, as it is outside _incompat",
@@ -116,8 +114,25 @@ def _method_elem(isig, kind, msig, level="own"):
                      "has_first": kind in FIRST}}
 
 
+SELFLESS = [(0, 0, 1, 0), (0, 0, 1, 1)]     # def m(*va) / def m(*va, **kw): the instance lands in *va
+
+
+def _selfless_elem(isig, kind, msig, level="own"):
+    el = _method_elem(isig, kind, msig, level)
+    el["impl"]["params"] = params(msig)       # no self / cls
+    el["impl"]["has_first"] = False
+    return el
+
+
 def _grid():
     cases = []
+    for isig in ALL_SIGS:
+        for msig in SELFLESS:
+            for how, kind, cand in (("bound", "method", "instance"), ("class", "method", "class"),
+                                    ("bound", "classmethod", "instance"), ("class", "classmethod", "class")):
+                cases.append({"stream": "grid", "how": "selfless_" + kind + "_" + how,
+                              "vt": "c" if cand == "class" else "o", "tentative": False, "declare": 1,
+                              "cand": cand, "elems": [_selfless_elem(isig, kind, msig)]})
     for isig in ALL_SIGS:
         for msig in ALL_SIGS:
             for how in ("func", "bound", "class"):
@@ -153,17 +168,40 @@ def _agg_case(rng):
                 msig = rng.choice([(min(3, r + 1), o, va, kw), (r, max(0, o - 1), 0, kw), (r, o, va, 0), (r, o, 0, kw)])
         else:
             msig = rng.choice(ALL_SIGS)
+        selfless = kind in FIRST and rng.random() < 0.08
+        if selfless:
+            msig = rng.choice(SELFLESS)
         if is_attr:
             el = {"level": level, "desc": {"kind": "attr"},
                   "impl": {"kind": kind, "params": params(msig, FIRST.get(kind)), "sig": list(msig),
                            "has_first": kind in FIRST}}
         else:
             el = _method_elem(isig, kind, msig, level)
+        if selfless:
+            el["impl"]["params"] = params(msig)
+            el["impl"]["has_first"] = False
         if level == "override" and rng.random() < 0.7:
             el["base_params"] = params(rng.choice(ALL_SIGS))
         elems.append(el)
+    # what a program may have asked the interface before verifying: single-name look-ups
+    # (the outcome of verification must not depend on them)
+    pre = []
+    style = rng.random()
+    if style < 0.25:
+        names = []
+    elif style < 0.5:
+        names = [rng.randrange(n)]
+    else:
+        names = [i for i in range(n) if rng.random() < 0.5]
+        rng.shuffle(names)
+    for i in names:
+        pre.append([rng.choice(["I", "I", "I", "ISub", "IBase"]),
+                    rng.choice(["getitem", "contains", "get", "query", "direct"]), "n%d" % i])
+    for _ in range(rng.choice([0, 0, 1, 2])):
+        pre.insert(rng.randint(0, len(pre)), [rng.choice(["I", "I", "ISub", "IBase"]),
+                                              rng.choice(["getitem", "contains", "get", "query"]), "nope"])
     return {"stream": "agg", "vt": vt, "tentative": rng.random() < 0.3,
-            "declare": rng.choice([0, 0, 1, 1, 2]), "cand": cand, "elems": elems}
+            "declare": rng.choice([0, 0, 1, 1, 2]), "cand": cand, "elems": elems, "pre": pre}
 
 
 UNJUDGED = [
@@ -175,11 +213,10 @@ UNJUDGED = [
     ("kwonly_after_varargs", "p0, *va, k=None, **kw", "method", "self, p0, *va, k=None, **kw", "instance"),
     ("posonly_impl", "p0, q0=None", "method", "self, p0, q0=None, /", "instance"),
     ("posonly_iface", "p0, /, q0=None", "method", "self, p0, q0=None", "instance"),
-    ("noself_varargs", "p0", "method", "*args", "instance"),
-    ("noself_varargs_class", "p0", "method", "*args", "class"),
-    ("noself_varargs_kwargs", "p0", "method", "*args, **kw", "instance"),
     ("noself_kwargs", "", "method", "**kw", "instance"),
     ("noself_nothing", "", "method", "", "instance"),
+    ("noself_nothing_class", "", "method", "", "class"),
+    ("noself_kwargs_classmethod", "", "classmethod", "**kw", "instance"),
     ("self_defaulted", "", "method", "self=None", "instance"),
     ("staticmethod_verifyClass", "p0", "staticmethod", "p0", "class"),
     ("staticmethod_verifyClass_two", "p0", "staticmethod", "x, p0", "class"),
@@ -338,16 +375,17 @@ def replay_text(case, obs, mode):
             "from zope.interface import Interface, Attribute\n"
             "class IBase(Interface):\n%s\nclass I(IBase):\n%s\nclass C:\n%s\n"
             "# (exact construction: harness/drivers/c17_driver.py build_candidate; replay with bin/check C17 --replay <this file>)\n"
+            "# look-ups performed before verifying (interface, operation, name): %r\n"
             "# observed: %r"
             % ("1" if mode == "py" else "0", case["cand"], case["declare"], case["tentative"],
                "Class" if case["vt"] == "c" else "Object", "\n".join(body) or "    pass", "\n".join(own) or "    pass",
-               "\n".join(cls) or "    pass", obs.get("out")))
+               "\n".join(cls) or "    pass", case.get("pre", []), obs.get("out")))
 
 
 TECHNIQUE = ("Coq proof over a Gallina kernel regenerated from verify._incompat by a fail-closed translator plus a "
              "model of _verify/_verify_element; vm_compute correspondence with the implementation on the exhaustive "
              "(r,o,*,**)^2 grid; inspect.signature.bind as independent oracle for the Spec")
-LEVEL_TEXT = ("Machine-checked theorems (Properties/C17.v, 7 theorems, closed under the global context) state for all "
+LEVEL_TEXT = ("Machine-checked theorems (Properties/C17.v, 8 theorems, closed under the global context) state for all "
               "signatures with no bound on arities that _incompat (as translated from the current source) accepts exactly "
               "when every admitted call shape binds, that verification succeeds iff the candidate conforms, and that the "
               "failures are reported exactly; the model is compared with verifyObject/verifyClass on 12288 grid cases and "
@@ -355,5 +393,5 @@ LEVEL_TEXT = ("Machine-checked theorems (Properties/C17.v, 7 theorems, closed un
               "and against inspect.signature.bind.")
 LEVEL_NOTE = ("Trusted: Coq kernel/vm_compute; the translator's four-field abstraction of the signature dictionaries; the "
               "hand-written model of _verify_element's isinstance dispatch (validated by the correspondence). Outside the "
-              "judged scope: keyword-only/positional-only parameters, self-less methods, staticmethods under verifyClass "
+              "judged scope: keyword-only/positional-only parameters, methods with neither self nor *args, staticmethods under verifyClass "
               "(recorded only).")
